@@ -76,6 +76,22 @@ func parseInfo(l string) infoLine {
 	return il
 }
 
+// lineKey is what the C08 statement promises to be reproducible about one
+// reported line: depth, score, node count and variation. Other fields (time,
+// and anything a future format may add, such as nps) are not compared.
+func lineKey(l string) string {
+	il := parseInfo(l)
+	score := ""
+	tok := strings.Fields(l)
+	for i := 0; i+2 < len(tok); i++ {
+		if tok[i] == "score" {
+			score = tok[i+1] + " " + tok[i+2]
+			break
+		}
+	}
+	return fmt.Sprintf("depth=%v/%d nodes=%v/%d score=%s pv=%s", il.hasDepth, il.depth, il.hasNodes, il.nodes, score, strings.Join(il.pv, " "))
+}
+
 // maskTime blanks the value of the time field so that info streams can be
 // compared across clocks.
 func maskTime(l string) string {
@@ -233,7 +249,7 @@ func compareTwins(nameA, nameB string, a, b *SearchResult, ignoreTrailingAbortLi
 		add("twin-lines", fmt.Sprintf("%s reported %d lines, %s %d", nameA, len(la), nameB, len(lb)))
 	} else {
 		for i := range la {
-			if maskTime(la[i]) != maskTime(lb[i]) {
+			if lineKey(la[i]) != lineKey(lb[i]) {
 				add("twin-lines", fmt.Sprintf("line %d differs: %s %q vs %s %q", i, nameA, la[i], nameB, lb[i]))
 				break
 			}
